@@ -169,6 +169,20 @@ pub struct ActorSpec {
     #[serde(default)]
     pub stopped_yields: u32,
 }
+impl ActorSpec {
+    /// mailbox bound the library really applies: only the builder entry points take it
+    pub fn effective_mailbox(&self) -> Option<usize> {
+        if self.entry.builder() { self.mailbox } else { None }
+    }
+    /// handler timeout the library really applies: builder entry points, and never on stream loops
+    pub fn effective_timeout(&self) -> Option<u64> {
+        if self.entry.builder() && !self.entry.on_stream() { self.timeout } else { None }
+    }
+    pub fn effective_fail_on_timeout(&self) -> bool {
+        self.effective_timeout().is_some() && self.fail_on_timeout
+    }
+}
+
 impl Default for ActorSpec {
     fn default() -> Self {
         ActorSpec {
